@@ -183,6 +183,21 @@ class MaskTyper01(MaskTyper):
         if d in ("tuple", "list") and len(node.args) == 1:
             t = self.ty(node.args[0])
             return t if isinstance(t, Tup) else None
+        from .e3_masks import CTORS
+        if d in CTORS and node.args:
+            # np.zeros(len(x)) / np.zeros(x.shape[0]) / np.zeros(x.size): an array over the space of x
+            a0 = node.args[0]
+            src = None
+            if isinstance(a0, ast.Call) and dotted(a0.func) == "len" and len(a0.args) == 1:
+                src = a0.args[0]
+            elif isinstance(a0, ast.Attribute) and a0.attr == "size":
+                src = a0.value
+            elif isinstance(a0, ast.Subscript) and isinstance(a0.value, ast.Attribute) and a0.value.attr == "shape" and isinstance(a0.slice, ast.Constant) and a0.slice.value == 0:
+                src = a0.value.value
+            t = self.ty(src) if src is not None else None
+            if isinstance(t, A) and t.s is not None:
+                dt = [ast.unparse(x) for x in list(node.args[1:]) + [k.value for k in node.keywords if k.arg == "dtype"]]
+                return A(t.s, "mask" if any(x in ("bool", "np.bool_", "'bool'") for x in dt) else "val")
         if isinstance(node.func, ast.Name) and isinstance(self.env.get(node.func.id), Fn):
             d = self.env[node.func.id].name
         fn = self.inline.get(d) if d else None
@@ -324,7 +339,7 @@ class MaskTyper01(MaskTyper):
         if isinstance(v, (Tup, Gen, Fn, Str, DictT)) and not isinstance(target, ast.Name):
             v = None
         r = super().assign(target, v, st)
-        if isinstance(target, ast.Name) and type(v) is A and v.kind == "mask" and v.s is not None and self.env.get(target.id) is v:
+        if isinstance(target, ast.Name) and type(v) is A and v.kind == "mask" and self.env.get(target.id) is v:
             label = MaskTyper._sel_name(self, target)
             if self.depth:
                 label += f"~{self.serial}"
